@@ -1,4 +1,5 @@
 import Driver.Pure
+import Driver.Project
 /-! Line-protocol driver: one JSON request per line in, one JSON answer per line out. -/
 open Lean Laze
 
@@ -11,6 +12,7 @@ def dispatch (j : Json) : Json :=
   | "env_merge" => handleEnvMerge j
   | "env_assign" => handleEnvAssign j
   | "is_allowed" => handleIsAllowed j
+  | "gen" => handleGen j
   | op => Json.mkObj [("bad", "unknown op " ++ op)]
 
 partial def loop (h : IO.FS.Stream) (out : IO.FS.Stream) : IO Unit := do
